@@ -48,6 +48,7 @@ ID_SCHEMA = {
         {"name": "e", "type": {"type": "enum", "name": "Col", "symbols": ["R", "G", "B"]}},
         {"name": "fx", "type": {"type": "fixed", "name": "F4", "size": 4}},
         {"name": "u", "type": ["null", "string", "long"], "default": None},
+        {"name": "fl", "type": "float"},
         {"name": "last", "type": "long"},
     ],
 }
@@ -78,7 +79,7 @@ def good_record(rng, ids, family, size=None):
     i = ids.next()
     return {"id": i, "s": ("x" * 5000 if size == "large" else "s%d" % i),
             "arr": [i % 7, 1, 2][: rng.randint(0, 3)], "e": rng.choice(["R", "G", "B"]),
-            "fx": bytes([i % 256, 1, 2, 3]), "u": rng.choice([None, "u", i]), "last": -i}
+            "fx": bytes([i % 256, 1, 2, 3]), "u": rng.choice([None, "u", i]), "fl": float(i % 100), "last": -i}
 
 
 def bad_record(rng, ids, kind):
@@ -97,16 +98,28 @@ def bad_record(rng, ids, kind):
         del r["s"]
     elif kind == "bad_string":
         r["s"] = None
+    elif kind == "bad_float_overflow":
+        r["fl"] = 1e300  # OverflowError from struct.pack, after the earlier fields were encoded
+    elif kind == "bad_float_type":
+        r["fl"] = [1.5]  # TypeError from float() / struct
+    elif kind == "bad_union":
+        r["u"] = object()
+    elif kind == "bad_array_type":
+        r["arr"] = 5
+    elif kind == "bad_fixed_type":
+        r["fx"] = 5
     return r
 
 
-BAD_KINDS = ["bad_first", "bad_last", "bad_arr3", "bad_enum", "bad_fixed", "missing", "bad_string"]
+BAD_KINDS = ["bad_first", "bad_last", "bad_arr3", "bad_enum", "bad_fixed", "missing", "bad_string",
+             "bad_float_overflow", "bad_float_type", "bad_union", "bad_array_type", "bad_fixed_type"]
 
 
 def gen_history(rng):
     family = rng.choice(["id"] * 5 + ["null", "record", "fixed"])
     cfg = {"family": family, "codec": rng.choice(CODECS), "interval": rng.choice([1, 40, 40, 10**6, 10**6]),
-           "validator": rng.random() < 0.35, "meta": rng.choice([None, {"k": "v"}, {"a": "é"}]),
+           "validator": rng.random() < 0.35,
+           "meta": rng.choice([None, {"k": "v"}, {"a": "é"}, {"avro.codec": rng.choice(CODECS), "from": "another file"}]),
            "marker": rng.choice([b"", bytes(rng.getrandbits(8) for _ in range(16))])}
     ops = [("new", cfg)]
     n = rng.randint(5, 40)
@@ -119,7 +132,8 @@ def gen_history(rng):
         elif x < 0.75:
             ops.append(("flush",))
         elif x < 0.83:
-            ops.append(("write_block", {"codec": rng.choice(CODECS), "counts": [rng.choice([0, 1, 1, 3]) for _ in range(rng.randint(1, 3))]}))
+            ops.append(("write_block", {"codec": rng.choice(CODECS), "counts": [rng.choice([0, 1, 1, 3]) for _ in range(rng.randint(1, 3))],
+                                        "mode": rng.choice(["plain", "plain", "inspect_first", "twice"])}))
         elif x < 0.87:
             ops.append(("abandon",))
         elif x < 0.95:
@@ -305,9 +319,15 @@ def run_history(sh, fa, rng, ops):
             if pending:
                 sh.count("write_block_with_pending")
 
+            mode = d.get("mode", "plain")
+
             def copy_blocks():
                 for blk in fa.block_reader(io.BytesIO(donor)):
+                    if mode == "inspect_first":
+                        list(blk)  # looking at a block's records before copying it
                     W.write_block(blk)
+                    if mode == "twice":
+                        W.write_block(blk)
 
             st, err = guard(copy_blocks)
             if st == "exc":
@@ -315,7 +335,15 @@ def run_history(sh, fa, rng, ops):
                 return
             durable.extend(pending)
             pending = []
-            durable.extend(expected_of(r) for r in donor_recs)
+            if mode == "twice":
+                i0 = 0
+                for c in d["counts"]:
+                    durable.extend(expected_of(r) for r in donor_recs[i0:i0 + c])
+                    durable.extend(expected_of(r) for r in donor_recs[i0:i0 + c])
+                    i0 += c
+            else:
+                durable.extend(expected_of(r) for r in donor_recs)
+            sh.count("write_block_mode_" + mode)
             since_dump_failed = False
             sh.count("write_blocks")
             # write_block does not flush the stream object; BytesIO needs none
